@@ -91,6 +91,12 @@ bool lzma2_dict_from_prop(uint8_t b, uint64_t &size);
 // ------------------------------------------------------ generative encoder
 struct SynthRng {
 	uint64_t s;
+	// deliberately invalid streams: with this probability (per emit() call) one
+	// symbol refers to a byte just outside the dictionary (a match or rep whose
+	// distance equals the number of bytes available, now and then a little
+	// more). The plaintext gets what a decoder that forgot the check would
+	// most plausibly produce (0 for a byte before the start of the dictionary).
+	unsigned illegal_permille = 0, illegal_emitted = 0;
 	explicit SynthRng(uint64_t seed) : s(seed * 0x9E3779B97F4A7C15ull + 0x1234567) {}
 	uint64_t next() { s ^= s << 13; s ^= s >> 7; s ^= s << 17; return s * 0x2545F4914F6CDD1Dull; }
 	uint64_t below(uint64_t n) { return n ? next() % n : 0; }
